@@ -94,7 +94,7 @@ pub fn scenarios(tier: &str) -> Vec<Scenario> {
 
 pub fn run(tier: &str) -> ! {
 	let mut run = Run::new("C16", tier, "fault_enumeration");
-	let budget = Budget::new(if tier == "thorough" { 5000.0 } else { 150.0 });
+	let budget = Budget::new(if tier == "thorough" { 1500.0 } else { 150.0 });
 	run.set("rule", json!("for every edge (state, event) of the graph search with event in {P, R, F, E, K, reopen} and for every j: the history is re-executed and every mutating file operation on a database file from the j-th of that event on fails with EIO (interposed open/creat, write, ftruncate, fsync, fdatasync, mmap, msync, unlink, rename), and separately the crate's own failure injector fails every I/O site from the j-th on (covers reads, seeks, metadata calls). Then: no panic; if the step returned an error it is stored as the worker would and the next commit is refused with the background error leaving no trace; all reads equal the committed state; drop with the fault still present terminates; after the fault is gone reopen succeeds and shows S_k with k >= commits synced before the failure; all reads agree with the model of S_k. j runs until the step completes without reaching the fault"));
 	run.assumptions = vec!["without background threads (stepping mode); the threaded variant belongs to the loom engine".into(), "failures persist until restart, as the property's quantifier says".into()];
 	let scns = scenarios(tier);
